@@ -25,7 +25,7 @@ class G(object):
         self.ints = ["a", "b", "n", "sub.x", "t3"]     # small unsigned sources (<= 8 bits)
         self.bools = ["f1", "f2"]
         self.ea = ["ea", "e"]                            # values of enum Ea
-        self.eb = ["eb"]
+        self.eb = ["eb", "eb2"]                          # values of other enums: Eb, and Sub.Ea (same last name as Ea)
 
     def int(self, d=0):
         r = self.r
@@ -53,8 +53,10 @@ class G(object):
             return r.choice(self.bools + ["true", "false"])
         if k < 0.45:
             return "%s %s %s" % (self.int(d + 1), r.choice(["==", "!=", "<", "<=", ">", ">="]), self.int(d + 1))
-        if k < 0.55:
+        if k < 0.52:
             return "%s %s %s" % (self.enum_a(), r.choice(["==", "!="]), self.enum_a())
+        if k < 0.55:
+            return "%s %s %s" % (r.choice(["eb2", "Sub.Ea.AONE"]), r.choice(["==", "!="]), r.choice(["eb2", "Sub.Ea.AZERO"]))
         if k < 0.62:
             return "%s %s %s" % (r.choice(self.bools), r.choice(["==", "!="]), r.choice(self.bools + ["true"]))
         if k < 0.8:
@@ -71,7 +73,7 @@ class G(object):
         return "(%s ? %s : %s)" % (self.bool(d + 1), self.enum_a(d + 1), self.enum_a(d + 1))
 
     def enum_b(self):
-        return self.r.choice(self.eb + ["Eb.BZERO", "Eb.BFIVE"])
+        return self.r.choice(self.eb + ["Eb.BZERO", "Eb.BFIVE", "Sub.Ea.AZERO", "Sub.Ea.AONE"])
 
     # -- ill-typed expressions: exactly one rule broken at the root ---------------
     def bad(self, want):
@@ -111,11 +113,12 @@ def build(rng, negative):
     """Returns (files, expect_accept, rule, mutated_lines)."""
     g = G(rng)
     L = ['[$default byte_order: "LittleEndian"]', "", "enum Ea:", "  AZERO = 0", "  AONE = 1", "", "enum Eb:", "  BZERO = 0", "  BFIVE = 5", "",
-         "struct Sub:", "  0 [+1]  UInt  x", "", "struct Par(n: UInt:8, e: Ea):", "  0 [+1]  UInt  x", "  let twice = n * 2", ""]
+         "struct Sub:", "  enum Ea:", "    AZERO = 0", "    AONE = 1", "  0 [+1]  UInt  x", "", "struct Par(n: UInt:8, e: Ea):", "  0 [+1]  UInt  x", "  let twice = n * 2", ""]
     L.append("struct Main(n: UInt:8, e: Ea):")
     struct_req_at = len(L)
     L += ["  0 [+1]  UInt  a", "  1 [+1]  UInt  b", "  2 [+1]  Ea  ea", "  3 [+1]  Eb  eb", "  4 [+1]  bits:", "    0 [+1]  Flag  f1",
-          "    1 [+1]  Flag  f2", "    2 [+3]  UInt  t3", "  5 [+1]  Sub  sub", "  if a == 1:", "    6 [+1]  UInt  opt"]
+          "    1 [+1]  Flag  f2", "    2 [+3]  UInt  t3", "  5 [+1]  Sub  sub", "  if a == 1:", "    6 [+1]  UInt  opt",
+          "  11 [+1]  Sub.Ea  eb2"]
     slots = []  # (kind, line index)
 
     def add(kind, text):
